@@ -73,14 +73,24 @@ func (its *list) ToJSON() interface{} {
 func (its *list) ExecuteLocal(op interface{}) (interface{}, errors.OrdaError) {
 	switch cast := op.(type) {
 	case *operations.InsertOperation:
+		// positions are validated here, under the datatype's lock: the list may have changed since the call began
+		if err := its.snapshot().validateInsertPosition(cast.Pos); err != nil {
+			return nil, err
+		}
 		target, ret := its.snapshot().insertLocal(cast.Pos, cast.GetTimestamp(), cast.GetBody().V...)
 		cast.GetBody().T = target
 		return ret, nil
 	case *operations.DeleteOperation:
+		if err := its.snapshot().validateGetRange(cast.Pos, cast.NumOfNodes); err != nil {
+			return nil, err
+		}
 		delTargets, _, delValues := its.snapshot().deleteLocal(cast.Pos, cast.NumOfNodes, cast.GetTimestamp())
 		cast.GetBody().T = delTargets
 		return delValues, nil
 	case *operations.UpdateOperation:
+		if err := its.snapshot().validateGetRange(cast.Pos, len(cast.GetBody().V)); err != nil {
+			return nil, err
+		}
 		uptTargets, uptValues, err := its.snapshot().updateLocal(cast.Pos, cast.GetTimestamp(), cast.GetBody().V)
 		if err != nil {
 			return nil, err
@@ -115,9 +125,6 @@ func (its *list) Insert(pos int, value interface{}) (interface{}, errors.OrdaErr
 }
 
 func (its *list) InsertMany(pos int, values ...interface{}) (interface{}, errors.OrdaError) {
-	if err := its.snapshot().validateInsertPosition(pos); err != nil {
-		return nil, err
-	}
 	jsonValues, err2 := types.ConvertValueList(values)
 	if err2 != nil {
 		return nil, errors.DatatypeIllegalParameters.New(its.L(), err2.Error())
@@ -131,9 +138,6 @@ func (its *list) InsertMany(pos int, values ...interface{}) (interface{}, errors
 }
 
 func (its *list) Update(pos int, values ...interface{}) ([]interface{}, errors.OrdaError) {
-	if err := its.snapshot().validateGetRange(pos, len(values)); err != nil {
-		return nil, err
-	}
 	jsonValues, err2 := types.ConvertValueList(values)
 	if err2 != nil {
 		return nil, errors.DatatypeIllegalParameters.New(its.L(), err2.Error())
@@ -157,9 +161,6 @@ func (its *list) Delete(pos int) (interface{}, errors.OrdaError) {
 
 // DeleteMany deletes the nodes at index pos in sequence.
 func (its *list) DeleteMany(pos int, numOfNode int) ([]interface{}, errors.OrdaError) {
-	if err := its.snapshot().validateGetRange(pos, numOfNode); err != nil {
-		return nil, err
-	}
 	op := operations.NewDeleteOperation(pos, numOfNode)
 	ret, err := its.SentenceInTx(its.TxCtx, op, true)
 	if err != nil {
